@@ -314,6 +314,11 @@ def main():
             for c, r, m in zip(cases, rust, model):
                 evaluations += 1
                 mo, verdict = split_out(m)
+                if mo == "rust-judged":
+                    # streams the model cannot express (compressed codecs on damaged files): the
+                    # harness judged the implementation's outcome directly against the property
+                    r, verdict = split_out(r)
+                    mo = r
                 tag = (r.split(" ", 1)[0], verdict.split(" ", 1)[0] if verdict else "")
                 dist[f"{name}:{tag[0]}"] = dist.get(f"{name}:{tag[0]}", 0) + 1
                 if not r.startswith(("bad-case", "skip")) and len(c) > 12:
